@@ -18,6 +18,17 @@ def handle (line : String) : Json :=
         Json.mkObj [("out", Json.arr (runProg T ops).toArray)]
       | none => errJson .badOp
     | some "loader" => LoadEngine.run j
+    | some "history" =>
+      -- C15: cpu files opened by each call of a history of load() calls on one dataset
+      match (getField? j "output").bind Ramses.Output.fromJson?, getArr? j "reqs" with
+      | some o, some rs =>
+        match rs.mapM LoadEngine.Request.fromJson? with
+        | some reqs =>
+          let enc (l : List (List Nat)) : Json := Json.arr (l.map natsToJson).toArray
+          Json.mkObj [("model", enc (LoadHistory.run true o none reqs)),
+                      ("fresh", enc (reqs.map fun rq => (LoadHistory.step true o none rq).2))]
+        | none => errJson .badOp
+      | _, _ => errJson .badOp
     | some "hkey" =>
       -- `_hilbert3d`: model = table extracted from the source, spec = committed reference table
       match getArr? j "cases" with
